@@ -137,7 +137,20 @@ class Taste(Scenario):
         bad = os.path.join(work, "plt_t_bad")
         lv = m.nlevels - 1
         mutate.mutant(p, bad, inf, [{"op": "insert", "lv": lv, "box": len(m.boxes[lv]) - 1, "n": 8}])
-        return {"p": p, "bad": bad}
+        # two damaged binary files at one level, both seen by the same check: which of the two the
+        # failing mode reports must not depend on which task finishes first
+        ctx = {"p": p, "bad": bad, "root": work}
+        for lv2 in range(m.nlevels):
+            fo = m.layout[lv2]["file_of"]
+            if len(set(fo)) >= 2:
+                b1 = 0
+                b2 = next(i for i, f in enumerate(fo) if f != fo[0])
+                bad2 = os.path.join(work, "plt_t_bad2")
+                mutate.mutant(p, bad2, inf, [{"op": "insert", "lv": lv2, "box": b1, "n": 8},
+                                             {"op": "insert", "lv": lv2, "box": b2, "n": 16}])
+                ctx["bad2"] = bad2
+                break
+        return ctx
 
     def run(self, ctx, out, serial=False):
         from amr_kitchen.taste import Taster
@@ -148,6 +161,13 @@ class Taste(Scenario):
                     vals.append(bool(Taster(path, nofail=True, verbose=0, **kw)))
                 except Exception as e:
                     vals.append("raised " + type(e).__name__)
+        if ctx.get("bad2"):
+            # failing mode: what the caller gets is the error, text included (it names the box and the file)
+            for kw in ({}, {"binary_headers": False}):
+                try:
+                    vals.append(bool(Taster(ctx["bad2"], verbose=0, **kw)))
+                except BaseException as e:
+                    vals.append(f"raised {type(e).__name__}: {e}".replace(ctx["root"], "<work>"))
         return {"values": vals, "paths": []}
 
 
